@@ -34,6 +34,9 @@ ValueLen(kind, bytes, idx) ==
              a == A[kind.n]
              l == VarLen(bytes, idx + a)
          IN IF l > 5 THEN 1000 ELSE a + l + VarVal(bytes, idx + a)
+    [] kind.k = "attrs_none" ->             \* kind.n attribute uintvars and no content (result 0x37: result-code only)
+         LET A[j \in 0..kind.n] == IF j = 0 THEN 0 ELSE LET p == A[j - 1] IN p + VarLen(bytes, idx + p)
+         IN A[kind.n]
     [] OTHER -> 1000
 
 \* token ids of a document body bytes[from+1 .. to], or <<-1>> appended when the chain does not end exactly at `to`
